@@ -79,6 +79,6 @@ def run(ctx):
         for k in ks:
             variants.append(t2.Case("%s@%d" % (c.id, k), c.cfg, c.inits, c.ops, crash=k, meta={"parent": c.id, "twin": not aligned}))
     r = worldrun.run_stream("C02", "crash_points", variants, model_ok, level=1, oracle=oracle, do_shrink=False,
-                            triggers=lambda case, a, b: trig.get(case.meta.get("parent"), []), nontrivial=lambda c, a: True,
+                            triggers=lambda case, a, b: sorted(set(trig.get(case.meta.get("parent"), [])) | set(b["F"] if b and b.get("F") else [])), nontrivial=lambda c, a: True,
                             desc="for every generated history (operations and the final Rollback): one run per crash point k (%s), stopping the process after exactly k primitive calls; the world at the crash is compared with the model's; oracle: every original entry is intact in the base or exactly copied at the mirrored backup path, and the backup region holds nothing but (possibly still growing) copies of originals" % ("a sample of %d per history" % per if per < 10 ** 6 else "every k"))
     return {"streams": [st0, r]}
